@@ -3,5 +3,6 @@ CONSTANTS
   Tier = "quick"
   Emit = FALSE
   Broken = "none"
+  Part = 0
 INVARIANTS MechanismMeetsDefinition ValuesLabelsOrderKept Partition
 CHECK_DEADLOCK FALSE
